@@ -32,7 +32,7 @@ type Obligation struct {
 	SrcLine string
 	// ModelQuery: quantifier-free weakening of the query that has a model (candidate counterexample for replay)
 	ModelQuery string
-	Tags    map[int]bool // blocks whose lines are relevant (ancestors of the obligation's block); nil = all
+	Tags       map[int]bool // blocks whose lines are relevant (ancestors of the obligation's block); nil = all
 }
 
 type State struct {
@@ -96,24 +96,26 @@ type FnGen struct {
 	defers   []*deferRec
 	debug    map[string][]debugRef
 
-	unsupported string
-	assumptions map[string]bool
-	params      map[string]SVal
-	retSites    int
-	curInstr    ssa.Instruction
-	xexits      []xexit // exceptional exits (call may panic)
-	xtagBlock   map[int]int
-	inDeferX    bool
-	symHeap     string
-	symKeys     []string
-	lineTag     []int
-	curTag      int
-	anc         map[int]map[int]bool
-	curReach    string
-	track       map[string]Term
-	trackOrder  []string
-	callRes     map[string][]Term
-	callReach   map[string]string
+	unsupported  string
+	assumptions  map[string]bool
+	params       map[string]SVal
+	retSites     int
+	curInstr     ssa.Instruction
+	xexits       []xexit // exceptional exits (call may panic)
+	xtagBlock    map[int]int
+	inDeferX     bool
+	captured     map[string]types.Type
+	callCaptured map[string]types.Type
+	symHeap      string
+	symKeys      []string
+	lineTag      []int
+	curTag       int
+	anc          map[int]map[int]bool
+	curReach     string
+	track        map[string]Term
+	trackOrder   []string
+	callRes      map[string][]Term
+	callReach    map[string]string
 }
 
 type xexit struct {
@@ -436,8 +438,23 @@ func (g *FnGen) Generate() {
 		g.vals[fv] = t
 		g.assumeType(t, fv.Type(), st)
 		g.params[fv.Name()] = SVal{t, fv.Type()}
+		// closures capture variables by reference: in specifications the name denotes the variable's value
+		if pt, ok := fv.Type().(*types.Pointer); ok {
+			if g.captured == nil {
+				g.captured = map[string]types.Type{}
+			}
+			g.captured[fv.Name()] = pt.Elem()
+			g.emit(fmt.Sprintf("(assert (> %s 0))", t.S)) // a captured variable always exists
+		}
 	}
 	// receiver of a method is never nil? No: Go allows nil receivers. Nothing assumed.
+	if fn.Name() == "init" && fn.Synthetic != "" && fn.Pkg != nil {
+		// the package initialiser runs exactly once: its guard variable is false on entry
+		if gv, ok := fn.Pkg.Members["init$guard"].(*ssa.Global); ok {
+			key, _ := g.w.globalKey(gv)
+			g.emit(fmt.Sprintf("(assert (not %s))", g.hget(st, key).S))
+		}
+	}
 	g.typClosed(st)
 	// global invariants and axioms
 	for _, c := range g.w.axioms {
